@@ -39,10 +39,11 @@ TDcFields == Is("DcFields", "layout") /\ FieldsEqual(E.out) /\ E.flagsOk /\ Keep
 TDcKeys == /\ Is("DcKeys", "fields") /\ E.rotIdx = cs.used /\ E.dckOk /\ (RotHashDefined(V) => E.tableOk)
            /\ Keep /\ Adv("keys")
 \* ... and with SPSDK's own parser
-TSpsdkParse == /\ Is("SpsdkParse", "keys") /\ E.ok /\ FieldsEqual(E.out) /\ E.eq /\ E.reexport
+TSpsdkParse == /\ Is("SpsdkParse", "keys") /\ ~cs.noparse /\ E.ok /\ FieldsEqual(E.out) /\ E.eq /\ E.reexport
                /\ Keep /\ Adv("parsed")
 \* the signature verifies under the named RoT key over ALL preceding fields
-TCheckDcSignature == /\ Is("CheckDcSignature", "parsed")
+\* (a trace marked noparse is the continuation of one whose SpsdkParse step was rejected: that step is absent here)
+TCheckDcSignature == /\ (Is("CheckDcSignature", "parsed") \/ (Is("CheckDcSignature", "keys") /\ cs.noparse))
                      /\ E.from = 0 /\ E.to = DcSigAt(C, V, N) /\ E.sigAt = DcSigAt(C, V, N) /\ E.sigLen = SigLen(V) /\ E.ok
                      /\ Keep /\ Adv("dcsig")
 \* RoT hash: from the credential bytes = reference construction from the keys = what the DC object reports = image tools
